@@ -35,7 +35,7 @@ ASSUMPTIONS = [
     "the receiver's 'number of arrays already created' is emulated by setting cubed's per-process name counters (a fresh receiver process is also sampled)",
     "child and receiver share the filesystem (the child's context directory is where the deserialised array's intermediates go)",
 ]
-NSHARDS = {"quick": 16, "thorough": 32}
+NSHARDS = {"quick": 16, "thorough": 16}
 PER_SHARD = {"quick": 40, "thorough": 240}
 
 CHILD = r"""
@@ -254,9 +254,9 @@ def finalize(tier, merged):
     return {
         "rule": RULE,
         "floors": [
-            ("arrays built in a child process and shipped", c.get("arrays_shipped", 0), 300 if tier == "quick" else 4000),
-            ("combinations of a deserialised and a local array computed", c.get("combined_left", 0) + c.get("combined_right", 0) + c.get("shared_ancestry", 0), 700 if tier == "quick" else 10000),
-            ("receivers whose counters overlap the child's names", c.get("with_name_overlap", 0), 150 if tier == "quick" else 2000),
+            ("arrays built in a child process and shipped", c.get("arrays_shipped", 0), 300 if tier == "quick" else 2000),
+            ("combinations of a deserialised and a local array computed", c.get("combined_left", 0) + c.get("combined_right", 0) + c.get("shared_ancestry", 0), 700 if tier == "quick" else 5000),
+            ("receivers whose counters overlap the child's names", c.get("with_name_overlap", 0), 150 if tier == "quick" else 1000),
         ],
         "assumptions": ASSUMPTIONS,
     }
